@@ -77,6 +77,8 @@ type seq struct {
 	log   []string
 	dead  bool
 	limit int // MaxIdx+1, at least 0
+	// olDesc != "": q.opts is a list repeating MaxIdx / EnableNumKeys whose last occurrences are q.st
+	olDesc string
 }
 
 type seqOp struct {
@@ -232,11 +234,17 @@ func (q *seq) history() string {
 }
 
 func (q *seq) ctx() string {
+	if q.olDesc != "" {
+		return fmt.Sprintf("list at %s, PathSep=%q, %s configured as the end of the option list %s used in every call", q.loc.kind, q.sep, q.st, q.olDesc)
+	}
 	return fmt.Sprintf("list at %s, PathSep=%q, %s", q.loc.kind, q.sep, q.st)
 }
 
 func (q *seq) violate(sig, format string, a ...interface{}) {
 	q.dead = true
+	if q.olDesc != "" {
+		sig += ":via-repeated-option-list"
+	}
 	if q.w.capped(sig) {
 		return
 	}
@@ -849,6 +857,12 @@ func (w *world) runSequence(r *rand.Rand) {
 	q.st = setting{m: seqMaxIdx[r.Intn(len(seqMaxIdx))], e: r.Intn(3) == 0}
 	q.sep = []string{"", ".", ".", ".", "/"}[r.Intn(5)]
 	q.opts = q.st.opts(q.sep)
+	if w.olr != nil && w.olr.Intn(3) == 0 {
+		// the setting arrives as the END of a list that repeats MaxIdx /
+		// EnableNumKeys (optlist.go); the one list value serves every call
+		q.opts, q.olDesc = repeatedList(w.olr, q.st, q.sep)
+		w.res.Ev("seq_sequences_with_repeated_option_list", 1)
+	}
 	q.limit = int(q.st.m) + 1
 	if q.limit < 0 {
 		q.limit = 0
@@ -899,6 +913,7 @@ func lengthBucket(n, limit int) string {
 
 func (w *world) runSequences(seed int64, idx int) {
 	r := rand.New(rand.NewSource(harness.Mix(seed, "C20/sequences", idx)))
+	w.olr = rand.New(rand.NewSource(harness.Mix(seed, "C20/sequences/optlists", idx)))
 	for k := 0; k < seqPerCase; k++ {
 		w.runSequence(r)
 	}
